@@ -9,4 +9,28 @@ CHECKS = {
         text="getrandbytes/getrandstr are proved, for every count and every value of the single rng draw, to return exactly the base-256/base-L digits of that draw (loop invariants over the real source); the digit step map is proved bijective, so a uniform draw yields a uniform output of the declared size and alphabet. Salt/key generators are checked to delegate to these helpers.",
         note="trusted: pyvc VC generator, z3/cvc5, rng range contracts (random.Random), induction over n of the digits bijection argued on paper (step mechanised); float-based entropy->length in passlib.pwd is bounded only",
     ),
+    "C11": dict(
+        category="proof",
+        technique="ghost lock-step contracts on MD4 compression and Salsa20/8 (BV64 + no-overflow obligations), DES key conversion, scrypt.validate, discharged by z3; bounded stand-in vs independent references for DES/bcrypt/ROMix/HMAC/PBKDF/SASLprep",
+        text="MD4's compression function and Salsa20/8 are proved equal to RFC 1320 / RFC 7914 for every state and block by per-step cut points over the real source; DES 7<->8 byte key conversion, scrypt parameter validation are proved for all integers. The table-driven DES rounds, the bcrypt core, ROMix, HMAC/PBKDF1/2 and SASLprep are compared with independent references on stated bounds (never counted as proved).",
+        note="trusted: pyvc, z3/cvc5, struct unpack model, RFC transcriptions in /verif/specs; digests from hashlib; bounded parts are bounded",
+    ),
+    "C12": dict(
+        category="proof",
+        technique="contracts on the real chunk codecs and integer codecs executed symbolically per shape, round-trip lemmas over the 24-bit group definition, z3/cvc5; bounded exhaustive stand-in",
+        text="Every chunk encoder/decoder of Base64Engine (and libpass' copies) is proved equal to the 24-bit group definition for all byte values on every shape chunks<=2 x tail, integer codecs (12/24/30/64 bit, both bit orders) for all integers including refusals, and decode.encode = id as lemmas; the real engines are additionally run on every 1-/2-byte group and compared with stdlib base64.",
+        note="trusted: pyvc, z3/cvc5, stream-map meta-rule (per-iteration independence) for chunk counts > 2, abstract charmap with dec(enc(i)) = i; stdlib wrappers (b64s/ab64/b32) bounded only",
+    ),
+    "C13": dict(
+        category="proof",
+        technique="contracts on TOTP._generate / generate / normalize_token discharged by z3/cvc5 (dynamic truncation, decimal rendering abstraction); bounded stand-in vs RFC reference",
+        text="TOTP._generate is proved to return RFC 4226's dynamic truncation of the HMAC value modulo 10^digits, zero padded to exactly `digits` characters, for every counter, every digest of 20..64 bytes and digits 6..10; generate() uses counter floor(time/period) and reports the validity interval. Key text forms, float/datetime times and HMAC itself are covered by the bounded stand-in / C11.",
+        note="trusted: pyvc incl. the decimal-rendering meta-rule, z3/cvc5, struct model, HMAC abstract",
+    ),
+    "C14": dict(
+        category="proof",
+        technique="contracts on TOTP.match/_find_match with loop invariant (earliest match) and an uninterpreted counter->token map, discharged by z3; exhaustive small-domain stand-in",
+        text="For all integer time/skew/window/period/last_counter and any token function, match() is proved to search exactly the stated counter range, return the earliest matching counter later than the last used one, raise UsedTokenError/InvalidTokenError/MalformedTokenError exactly in the stated cases and fill TotpMatch correctly; accepted counters strictly increase when fed back.",
+        note="trusted: pyvc, z3 (quantifier instantiation for the 'no earlier match' invariant), consteq == equality; induction over the history argued from the proved two-call step",
+    ),
 }
